@@ -4,6 +4,7 @@ import queue
 import sys
 import uuid
 from concurrent.futures import Future
+from copy import copy
 from time import sleep
 from typing import Callable, List, Optional
 
@@ -533,7 +534,13 @@ def _update_futures_in_input(args: tuple, kwargs: dict):
         if isinstance(arg, Future):
             return arg.result()
         elif isinstance(arg, list):
-            return [get_result(arg=el) for el in arg]
+            result_lst = [get_result(arg=el) for el in arg]
+            if type(arg) is list:
+                return result_lst
+            # an instance of a subclass of list keeps its class and its attributes
+            arg_copy = copy(arg)
+            arg_copy[:] = result_lst
+            return arg_copy
         else:
             return arg
 
